@@ -637,6 +637,48 @@ ks_spec("dev_quic_keys", [("key_length", "Nat"), ("secret_list", "List KSecret")
         drop_stmts=DROP_LOG, maybe_locals=QK_MAYBE, split_loops=True,
         locals={f"{side}_early_traffic_{part}": OB for side in ("client", "server") for part in ("key", "iv", "hp")})
 
+# the output builders: the export loops and the seq/ack arithmetic. A scapy packet is the list of its layers as constructed
+# (`Layer`: the keyword arguments given; `/` stacks); what scapy makes of them is compared byte for byte by the harness.
+LAYERS = {"Layers": "(List Layer)"}
+ADDR = "Str|Bytes"
+SCAPY_CALLS = {"Ether": dict(lean="mkEther", params=["src", "dst"], args=["Bytes", "Bytes"], ret="Layers"),
+               "IP": dict(lean="mkIP false", params=["src", "dst"], args=[ADDR, ADDR], ret="Layers"),
+               "IPv6": dict(lean="mkIP true", params=["src", "dst"], args=[ADDR, ADDR], ret="Layers"),
+               "UDP": dict(lean="mkUDP", params=["dport", "sport"], args=["Nat", "Nat"], ret="Layers"),
+               "TCP": dict(lean="mkTCP", params=["dport", "sport", "flags", "seq", "ack"], args=["Nat", "Nat", "Str", "Nat", "Nat"], ret="Layers"),
+               "Raw": dict(lean="mkRaw", args=["Bytes"], ret="Layers")}
+LAYER_DECL = """/-- one scapy layer as constructed: the keyword arguments given -/
+inductive Layer
+  | ether (src dst : Bytes)
+  | ip (v6 : Bool) (src dst : Sum (List Nat) Bytes)
+  | udp (dport sport : Nat)
+  | tcp (dport sport : Nat) (flags : List Nat) (seq ack : Nat)
+  | raw (load : Bytes)
+  deriving DecidableEq, Repr
+
+abbrev Layers := List Layer
+
+def mkEther (src dst : Bytes) : List Layer := [Layer.ether src dst]
+def mkIP (v6 : Bool) (src dst : Sum (List Nat) Bytes) : List Layer := [Layer.ip v6 src dst]
+def mkUDP (dport sport : Nat) : List Layer := [Layer.udp dport sport]
+def mkTCP (dport sport : Nat) (flags : List Nat) (seq ack : Nat) : List Layer := [Layer.tcp dport sport flags seq ack]
+def mkRaw (load : Bytes) : List Layer := [Layer.raw load]
+"""
+GROUPS["Builders"] = dict(imports=["TLX.PyRt", "TLX.TcpOut", "TLX.Quic.UdpOut"], decls=[LAYER_DECL],
+                          options=["set_option linter.unusedVariables false"])
+UF = "TLX.Quic.UdpOut.Frame"
+QB_ADDR = [("self.server_mac_address", "server_mac", "Bytes", "r"), ("self.client_mac_address", "client_mac", "Bytes", "r"),
+           ("self.server_ip", "server_ip", "Str", "r"), ("self.client_ip", "client_ip", "Str", "r"),
+           ("self.server_port", "server_port", "Nat", "r"), ("self.client_port", "client_port", "Nat", "r"), ("self.ipv6", "ipv6", "Bool", "r")]
+SPECS.append(dict(name="quic_build", group="Builders", theorem="Bld.quic_build_eq_model", file="tlexport/quic/quic_output_builder.py", func="QUICOutputbuilder.build",
+                  params=[("metadata", "Bool")], ret="List (Layers × (Option Nat))", types=LAYERS, calls=SCAPY_CALLS, split_loops=True,
+                  places=[("self.decrypted_traffic", "decrypted_traffic", f"List {UF}", "r"),
+                          ("self.out", "out", "List (Layers × (Option Nat))", "rw")] + QB_ADDR,
+                  locals={"ts": "Option Nat", "isserver": "Option Bool", "data": "Option Bytes"},
+                  consts={"frame.src_packet.ts": (f"({UF}.ts frame)", "Nat"), "frame.src_packet.isserver": (f"({UF}.isServer frame)", "Bool")},
+                  attr_funcs={(UF, "frame_type"): (f"{UF}.ftype", "Nat"), (UF, "crypto"): (f"{UF}.data", "Bytes"),
+                              (UF, "payload"): (f"{UF}.data", "Bytes"), (UF, "stream_data"): (f"{UF}.data", "Bytes")}))
+
 THEOREMS = _uniq(theorem_of(s) for s in SPECS)
 
 
@@ -662,8 +704,9 @@ CHECK_GROUPS = {
     "C03": ["TlsSess", "QuicDissect", "Varint", "QuicDissect2", "TlsSess2"],
     "C04": ["Demux", "QuicSess", "QuicDissect"],
     "C05": ["Reasm", "Reasm2"],
-    "C07": ["Ports"],
-    "C10": ["Ports"],
+    "C06": ["Builders"],
+    "C07": ["Ports", "Builders"],
+    "C10": ["Ports", "Builders"],
     "C11": ["Checksum"],
     "C13": ["TlsSess", "TlsSess2"],
     "C14": ["Suites"],
